@@ -6,6 +6,7 @@
 #include <errno.h>
 #include <fcntl.h>
 #include <signal.h>
+#include <sstream>
 #include <stdio.h>
 #include <stdlib.h>
 #include <string.h>
@@ -42,6 +43,8 @@ static string g_cur_prop;
 static string g_replay_dir = "/verif/replays";
 static string g_tag = "w0";
 static bool g_in_replay = false;
+static string g_seq_desc;            // how this worker generates its runs (for replaying a whole sequence)
+static uint64_t g_seq_count = 0;     // runs started so far
 
 static void emergency(const char *prop, const char *cls, const char *detail);
 
@@ -114,6 +117,8 @@ static void emergency(const char *prop, const char *cls, const char *detail) {
     mkdir(g_replay_dir.c_str(), 0755);
     path = g_replay_dir + "/" + prop + "-" + sanitize(cls) + "-" + g_tag + "-" + std::to_string((long)getpid()) + ".plan";
     string t = g_cur_plan_text + "expect " + prop + "." + cls + "\n";
+    // a memory error may depend on what earlier runs of this process left behind: record the sequence as well
+    if (!g_seq_desc.empty()) t += "param worker_seq " + g_seq_desc + " count=" + std::to_string((unsigned long long)g_seq_count) + "\n";
     int fd = open(path.c_str(), O_WRONLY | O_CREAT | O_TRUNC, 0644);
     if (fd >= 0) { ssize_t w = write(fd, t.data(), t.size()); (void)w; close(fd); }
   }
@@ -291,9 +296,15 @@ static int cmd_run(int argc, char **argv) {
   printf("START {\"tag\":\"%s\",\"mode\":\"%s\",\"prop\":\"%s\",\"seed\":%llu,\"start\":%llu,\"stride\":%llu,\"rlimit\":%ld}\n", g_tag.c_str(), mode.c_str(), prop.c_str(),
          (unsigned long long)seed, (unsigned long long)start, (unsigned long long)stride, g_worker_rlimit);
   fflush(stdout);
+  {
+    char b[256];
+    snprintf(b, sizeof b, "mode=%s prop=%s seed=%llu start=%llu stride=%llu rlimit=%ld light=%d thorough=%d", mode.c_str(), prop.c_str(), (unsigned long long)seed, (unsigned long long)start, (unsigned long long)stride, g_worker_rlimit, (int)g_light, (int)g_thorough);
+    g_seq_desc = b;
+  }
   for (uint64_t i = start; agg.runs < max_runs; i += stride) {
     double t = now_s();
     if (t - t0 > budget) break;
+    g_seq_count++;
     uint64_t run_seed = mix64(base, i);
     Plan p = m->gen(run_seed, prop);
     p.cfg.rlimit = g_worker_rlimit;
@@ -370,6 +381,26 @@ static int cmd_replay(const char *file) {
   g_cur_plan_text = text;
   RunOut out;
   m->exec(p, &out);
+  if (out.viol.empty() && p.params.count("worker_seq")) {
+    // replay the whole sequence of runs the worker had executed in its process up to the failing one
+    std::map<string, string> kv;
+    { std::istringstream is(p.params.at("worker_seq")); string t; while (is >> t) { size_t e = t.find('='); if (e != string::npos) kv[t.substr(0, e)] = t.substr(e + 1); } }
+    const Mode *sm = find_mode(kv["mode"]);
+    if (sm) {
+      g_light = kv["light"] == "1"; g_thorough = kv["thorough"] == "1";
+      uint64_t seed = strtoull(kv["seed"].c_str(), 0, 10), start = strtoull(kv["start"].c_str(), 0, 10), stride = strtoull(kv["stride"].c_str(), 0, 10), count = strtoull(kv["count"].c_str(), 0, 10);
+      uint64_t base = mix64(seed, hash_str(kv["prop"]));
+      printf("SEQUENCE-REPLAY {\"runs\":%llu}\n", (unsigned long long)count);
+      for (uint64_t n = 0; n < count; n++) {
+        Plan q = sm->gen(mix64(base, start + n * stride), kv["prop"]);
+        q.cfg.rlimit = atol(kv["rlimit"].c_str());
+        g_cur_plan_text = q.str();
+        RunOut o2;
+        sm->exec(q, &o2); // a crash / sanitizer report ends the process through emergency() with a REPRODUCED line
+        if (!o2.viol.empty() && n + 1 == count) { string d; json_escape(d, o2.viol[0].detail); printf("REPRODUCED {\"property\":\"%s\",\"class\":\"%s\",\"hash\":\"%llx\",\"detail\":\"%s\"}\n", o2.viol[0].prop.c_str(), o2.viol[0].cls.c_str(), (unsigned long long)o2.event_hash, d.c_str()); return 1; }
+      }
+    }
+  }
   if (out.viol.empty()) { printf("NOT-REPRODUCED {\"expect\":\"%s\",\"hash\":\"%llx\"}\n", p.expect.c_str(), (unsigned long long)out.event_hash); return 0; }
   for (auto &v : out.viol) {
     string d; json_escape(d, v.detail);
